@@ -3,7 +3,7 @@ import TempestVerif.Model.Pipeline
 /- line-protocol handlers of properties C01 / C02 / C10: the whole-iteration pipeline model at Float.
 
    pipe.F ratio=<f> n=<nat> tolE=<f> tolB=<f> fuel=<nat> syst=<0|1> tapes=<tape>|<tape>|…
-     tape (warm-up):    D/<draw tags>/<draw logl, `x` = -inf>/<picks>
+     tape (warm-up):    D/<draw tags>/<draw logl, `x` = -inf>/<picks>[/<prior draws discarded before this block>]
      tape (annealing):  A/<resampling uniforms>/<step>+<step>+…        (no step: `-`)
        step:            <prop tags>~<prop logl, `x` = -inf>~<factors>~<uniforms>
    → <iter>|<iter>|…#<batch>|<batch>|…#<final evidence | none>      or   error:<k> (iteration k left the model)
@@ -26,17 +26,24 @@ def parseStep? (s : String) : Option (Step Float) :=
     pure ⟨pt, pl, f, r⟩
   | _ => none
 
-def parseTape? (s : String) : Option (Tape Float) :=
+/-- a tape and the number of prior draws discarded before its stored block (`D/…/<disc>`; absent = 0) -/
+def parseTape? (s : String) : Option (Tape Float × Nat) :=
   match s.splitOn "/" with
   | ["D", a, b, c] => do
     let tg ← parseNatList? a
     let l ← parseList? parseOptF? b
     let p ← parseNatList? c
-    pure ⟨tg, l, p, [], []⟩
+    pure (⟨tg, l, p, [], []⟩, 0)
+  | ["D", a, b, c, dd] => do
+    let tg ← parseNatList? a
+    let l ← parseList? parseOptF? b
+    let p ← parseNatList? c
+    let disc ← dd.toNat?
+    pure (⟨tg, l, p, [], []⟩, disc)
   | ["A", a, b] => do
     let u ← parseList? parseFloat? a
     let st ← if b == "-" then some [] else (b.splitOn "+").mapM parseStep?
-    pure ⟨[], [], [], u, st⟩
+    pure (⟨[], [], [], u, st⟩, 0)
   | _ => none
 
 def showMask (m : List Bool) : String := if m.isEmpty then "-" else String.ofList (m.map fun b => if b then '1' else '0')
@@ -55,9 +62,9 @@ def pipe (args : List (String × String)) : Option String := do
   let tapes ← (getArg args "tapes").bind fun s => (s.splitOn "|").mapM parseTape?
   let c : PCfg Float := ⟨⟨ratio, n, none, tolE, tolB, fuel⟩, syst⟩
   -- run iteration by iteration so that the failing iteration can be named
-  let rec go (s : PState Float) (k : Nat) (acc : List (IterOut Float)) : List (Tape Float) → Sum Nat (PState Float × List (IterOut Float))
+  let rec go (s : PState Float) (k : Nat) (acc : List (IterOut Float)) : List (Tape Float × Nat) → Sum Nat (PState Float × List (IterOut Float))
     | [] => .inr (s, acc.reverse)
-    | t :: ts => match iterate c s t with
+    | (t, disc) :: ts => match iterateR c s t disc with
       | some (s', o) => go s' (k + 1) (o :: acc) ts
       | none => .inl k
   match go init 0 [] tapes with
